@@ -29,6 +29,7 @@ let () =
          | IterBad l -> print_endline (String.trim ("BAD " ^ show_items l))
          | IterFuel -> print_endline "FUEL")
       | "R" :: rest -> print_endline ("OK " ^ hex_of_zlist (remove_invalid_utf8 (arg rest)))
+      | [ "C" ] -> print_endline (Printf.sprintf "kUnicodeError=%s default_iterator=%s" (string_of_z kUnicodeError) (string_of_z kUnicodeError))
       | [ "W1" ] ->
         (* all 1-byte buffers *)
         print_endline (String.concat " " (List.init 256 (fun b -> cell (decode_utf8 [z_of_int b]))))
